@@ -1195,6 +1195,14 @@ func arrShapeWith(info *types.Info, e ast.Expr, isArr func(ast.Expr) bool) strin
 		if id, ok := x.Fun.(*ast.Ident); ok && id.Name == "append" && len(x.Args) == 2 && isArr(x.Args[0]) {
 			return "append"
 		}
+		// append(arr[:0], arr[1:]...): everything but the first element, moved to the front in place
+		if id, ok := x.Fun.(*ast.Ident); ok && id.Name == "append" && len(x.Args) == 2 && x.Ellipsis.IsValid() {
+			if d, ok := ast.Unparen(x.Args[0]).(*ast.SliceExpr); ok && isArr(d.X) && d.Low == nil && d.High != nil {
+				if v, ok := constInt(info, d.High); ok && v == 0 && arrShapeWith(info, x.Args[1], isArr) == "reslice-from-1" {
+					return "reslice-from-1"
+				}
+			}
+		}
 	case *ast.SliceExpr:
 		if !isArr(x.X) {
 			break
